@@ -130,6 +130,32 @@ pub fn histories(tier: Tier) -> Vec<Hist> {
             ],
             deleted_nodes: vec![], deleted_refs: vec![], c11: false,
         },
+        // day boundaries: the first and the last millisecond of a day belong to exactly one day for the summary,
+        // the served rows and the deletion records alike
+        Hist {
+            name: "update-at-first-ms-of-a-day",
+            peers: 3,
+            steps: vec![Step::Clock(1), cp(0, 0, "a"), Step::PullAll, Step::Clock(4), up(0, 0, "b")],
+            deleted_nodes: vec![], deleted_refs: vec![], c11: false,
+        },
+        Hist {
+            name: "create-at-last-ms-of-a-day-and-first-ms-of-next",
+            peers: 3,
+            steps: vec![Step::ClockMs(4, -1), cp(0, 0, "a"), Step::Clock(4), cq(0, 1, "q")],
+            deleted_nodes: vec![], deleted_refs: vec![], c11: false,
+        },
+        Hist {
+            name: "node-deleted-at-first-ms-of-a-day",
+            peers: 3,
+            steps: vec![Step::Clock(1), cp(0, 0, "a"), Step::PullAll, Step::Clock(4), Step::Delete { peer: 1, slot: 0 }],
+            deleted_nodes: vec![0], deleted_refs: vec![], c11: true,
+        },
+        Hist {
+            name: "reference-removed-at-first-ms-of-a-day",
+            peers: 3,
+            steps: vec![Step::Clock(1), cp(0, 0, "a"), cq(0, 1, "q"), Step::AddRef { peer: 0, p: 0, q: 1 }, Step::PullAll, Step::Clock(4), Step::DelRef { peer: 1, p: 0, q: 1 }],
+            deleted_nodes: vec![], deleted_refs: vec![(0, 1)], c11: true,
+        },
     ];
     if tier == Tier::Thorough {
         h.push(Hist {
